@@ -83,7 +83,9 @@ func (e *Exec) mutexCall(s *State, ins ssa.Instruction, op string, mu Value) {
 			e.addObl(s, e.oblName("monitor/"+key+"/unlock-held"), "monitor", Not(s.pc), ins.Pos(), "unlock of a mutex that is not held")
 			return
 		}
-		e.counters["region:"+key]++
+		if e.quiet == 0 {
+			e.counters["region:"+key]++
+		}
 		ord := e.counters["region:"+key]
 		for i, inv := range mon.Invariants {
 			g := e.evalMonitorInv(mon, inv, objT, obj, s)
@@ -112,6 +114,9 @@ func unionProps(ps ...[]string) []string {
 }
 
 func (e *Exec) ownerType(fp *FieldPtr) types.Type {
+	if fp.NT != nil {
+		return fp.NT
+	}
 	// type of the struct that owns the field: find a Named type whose underlying is fp.ST
 	return e.v.namedForStruct(fp.ST)
 }
@@ -133,7 +138,7 @@ func (e *Exec) havocGuarded(s *State, mon *Monitor, objT types.Type, obj *Node) 
 			e.unsupported("monitor %s: no field %s", mon.TypeName, g)
 		}
 		ft := st.Field(idx).Type()
-		fp := &FieldPtr{Base: obj, ST: st, Idx: idx}
+		fp := &FieldPtr{Base: obj, ST: st, Idx: idx, NT: objT}
 		e.writeLoc(s, e.resolve(fp, ft), e.freshValue(s, "lk_"+g, ft))
 	}
 	for _, h := range mon.GuardHeaps {
